@@ -19,6 +19,36 @@ from .algebra import expand_sub_tree
 
 
 # ---------------------------------------------------------------------------------------
+# emulation: run_jaqal_circuit's pipeline (expand_subcircuits -> fill_in_let -> expand_macros) is executed
+# under tracing; the numeric back end (subcircuit discovery, trace serialisation, the sparse multiply whose
+# index arithmetic E4 proves, sampling) runs natively on the realised circuit -- tracing numpy adds nothing.
+
+def _backend_run(expanded):
+    from jaqalpaq.emulator.unitary import UnitarySerializedEmulator
+    return UnitarySerializedEmulator()(expanded).execute()
+
+
+class _NativeJob:
+    def __init__(self, circ):
+        self.circ = circ
+
+    def execute(self):
+        return concretely(_backend_run, self.circ)
+
+
+class NativeBackend:
+    """A backend object for run_jaqal_circuit(circuit, backend=...) that delegates to the real
+    UnitarySerializedEmulator with CrossHair's tracer suspended."""
+
+    def __call__(self, circ):
+        return _NativeJob(circ)
+
+
+def emulate(c):
+    return run_jaqal_circuit(c, backend=NativeBackend())
+
+
+# ---------------------------------------------------------------------------------------
 # fuel: turns non-termination of a visitor into a reportable result
 
 class FuelExhausted(Exception):
@@ -500,7 +530,7 @@ def c13_parallel(shape: int, size: int, i: int, j: int, k: int, l: int) -> str:
         s2 = par_program(shape, size, i, j, k, l, perm)
         try:
             c = build(s2, inject_pulses=NATIVE)
-            res = run_jaqal_circuit(c)
+            res = emulate(c)
             results.append([[round(float(x), 12) for x in sc.simulated_probability_by_int] for sc in res.subcircuits])
         except JaqalError as ex:
             results.append(None)
@@ -613,7 +643,7 @@ def c03_state(shape: int, size: int, i: int, j: int, k: int, n: int, x: int, ov:
         c = build(sx, inject_pulses=NATIVE)
         if over:
             c = fill_in_let(c, override_dict=over)
-        res = run_jaqal_circuit(c)
+        res = emulate(c)
     except JaqalError as ex:
         if ref is None:
             return "~rejected"
@@ -674,7 +704,7 @@ def state_template(tname: str, mask: int, o0: int, **leaves) -> str:
     try:
         c = build(sx, inject_pulses=NATIVE)
         c1 = fill_in_let(c, override_dict=ov) if ov else c
-        res = run_jaqal_circuit(c1)
+        res = emulate(c1)
     except JaqalError as ex:
         if ref is None:
             return "~rejected"
